@@ -222,45 +222,54 @@ def case_config_helpers(**p):
 
 
 def _dtype_sweep():
-  """the same data and weights in every array dtype a caller may hand over (values are what the symbolic cases cover;
-  the dtype is a finite enumeration, executed on the real function); end points are compared exactly"""
+  """the same data and weights in every array dtype a caller may hand over, and with a number of keypoints equal / close to the
+  number of distinct values (values are what the symbolic cases cover; dtypes and counts are finite enumerations, executed on
+  the real function); end points are compared exactly"""
   from tensorflow_lattice.python import premade_lib, pwl_calibration_lib
   datasets = [
       (np.array([0.0, 0.0, 1.0, 1.0, 2.0, 3.0, 3.0, 5.0, 8.0, 8.0]), (np.float64, np.float32, np.int64, np.int32, np.int16, np.int8), ((None, None), (1.0, 6.0))),
       # a span that does not fit the small integer types when subtracted; clip bounds that are not dyadic
       (np.array([-100.0, -100.0, -50.0, 0.0, 25.0, 50.0, 100.0, 100.0, 75.0, -25.0]), (np.float64, np.float32, np.int64, np.int16, np.int8), ((None, None), (0.2, 0.9), (-70.3, 33.1))),
       (np.array([-20000.0, 20000.0, 0.0, 5.0, 7.0, -3.0, 11.0, 13.0, 17.0, 19.0]), (np.float32, np.int32, np.int16), ((None, None),)),
+      (np.array([3.0, 1.0, 2.0, 2.0, 5.0, 4.0, 1.0, 5.0, 3.0, 4.0]), (np.float64, np.int64), ((None, None),)),
   ]
   wts = np.array([1, 2, 1, 1, 3, 1, 1, 2, 1, 1])
   fails = []
-  n = 0
+  n = [0]
+
+  def one(vals, vdt, wdt, mode, red, clip, nkp):
+    w = None if wdt is None else (np.ones(len(wts), dtype=np.bool_) if wdt is np.bool_ else wts.astype(wdt))  # all weights positive
+    n[0] += 1
+    tag = (vdt.__name__, getattr(wdt, '__name__', None), mode, red, clip, float(vals.min()), float(vals.max()), nkp)
+    try:
+      data = vals.astype(vdt)
+      ks = premade_lib.compute_keypoints(data, num_keypoints=nkp, keypoints=mode, clip_min=clip[0], clip_max=clip[1],
+                                         weights=w, weight_reduction=red)
+      ks = [float(k) for k in ks]
+      lo = float(data.min()) if clip[0] is None else max(float(clip[0]), float(data.min()))
+      hi = float(data.max()) if clip[1] is None else min(float(clip[1]), float(data.max()))
+      # float32 data: clip bounds may be rounded to the data's dtype; that rounding is not part of the claim
+      tol = 1e-6 if vdt is np.float32 else 0.0
+      if any(b_ <= a for a, b_ in zip(ks[:-1], ks[1:])) or not np.all(np.isfinite(ks)):
+        fails.append(tag + (ks,))
+      elif abs(ks[0] - lo) > tol * max(1.0, abs(lo)) or abs(ks[-1] - hi) > tol * max(1.0, abs(hi)):
+        fails.append(tag + ('end points %r, %r instead of %r, %r' % (ks[0], ks[-1], lo, hi),))
+      elif mode == 'quantiles' and clip == (None, None) and len(ks) != min(nkp, len(set(vals.tolist()))):
+        fails.append(tag + ('%d keypoints' % len(ks),))
+      else:
+        pwl_calibration_lib.verify_hyperparameters(input_keypoints=ks)
+    except Exception as e:  # pylint: disable=broad-except
+      fails.append(tag + ('%s: %s' % (type(e).__name__, str(e)[:80]),))
   for vals, vdts, clips in datasets:
+    distinct = len(set(vals.tolist()))
     for vdt in vdts:
       for wdt in (None, np.float64, np.float32, np.int64, np.int32, np.bool_):
         for mode in ('quantiles', 'uniform'):
           for red in ('mean', 'sum'):
             for clip in clips:
-              w = None if wdt is None else (np.ones(len(wts), dtype=np.bool_) if wdt is np.bool_ else wts.astype(wdt))  # all weights positive
-              n += 1
-              tag = (vdt.__name__, getattr(wdt, '__name__', None), mode, red, clip, float(vals.min()), float(vals.max()))
-              try:
-                data = vals.astype(vdt)
-                ks = premade_lib.compute_keypoints(data, num_keypoints=4, keypoints=mode, clip_min=clip[0], clip_max=clip[1],
-                                                   weights=w, weight_reduction=red)
-                ks = [float(k) for k in ks]
-                lo = float(data.min()) if clip[0] is None else max(float(clip[0]), float(data.min()))
-                hi = float(data.max()) if clip[1] is None else min(float(clip[1]), float(data.max()))
-                # float32 data: clip bounds may be rounded to the data's dtype; that rounding is not part of the claim
-                tol = 1e-6 if vdt is np.float32 else 0.0
-                if any(b_ <= a for a, b_ in zip(ks[:-1], ks[1:])) or not np.all(np.isfinite(ks)):
-                  fails.append(tag + (ks,))
-                elif abs(ks[0] - lo) > tol * max(1.0, abs(lo)) or abs(ks[-1] - hi) > tol * max(1.0, abs(hi)):
-                  fails.append(tag + ('end points %r, %r instead of %r, %r' % (ks[0], ks[-1], lo, hi),))
-                else:
-                  pwl_calibration_lib.verify_hyperparameters(input_keypoints=ks)
-              except Exception as e:  # pylint: disable=broad-except
-                fails.append(tag + ('%s: %s' % (type(e).__name__, str(e)[:80]),))
-  return n, fails
+              for nkp in ((4,) if clip != (None, None) else sorted(set([4, distinct, distinct - 1, distinct + 2]))):
+                one(vals, vdt, wdt, mode, red, clip, nkp)
+  return n[0], fails
 
 
 def case_dtype_sweep(**p):
